@@ -14,6 +14,21 @@ def put(s, name, head, rows):
     return s[:i] + b + "\n" + head + "\n|---|---|---|\n" + "\n".join(rows) + "\n" + s[j:]
 s = put(s, "FIXED", "| entry | properties | commit, what failed |", [row(e, True) for e in fixed])
 s = put(s, "OPEN", "| entry | properties | what fails |", [row(e, False) for e in opn])
+import glob, os
+desc = {"C11-a": "tag-distinctness scan over a run of non-mandatory components ends at a DEFAULT component",
+        "C11-b": "tag distinctness checked before later types are automatically tagged (passes folded into one loop)",
+        "C13-b": "UPER semi-constrained INTEGER minimal octets only for the unsigned native representation",
+        "C20-a": "enber drops the element after an 8191*k+1 character line",
+        "C20-b": "unber aborts when a nested TL straddles the end of its parent by one octet"}
+rows = []
+for f in sorted(glob.glob(V + "/seeded/*/meta.json")):
+    m = json.load(open(f)); d = os.path.dirname(f); n = os.path.basename(d)
+    files = [l.split("/", 1)[1].strip() for l in open(d + "/patch.diff") if l.startswith("+++ ")]
+    what = desc.get(n) or m.get("needs_to_manifest") or ""
+    rows.append("| %s | `%s` | %s | %s |" % (n, ", ".join(files), what.replace("|", "/"), m.get("detected_by") or "**not detected**"))
+b, e = "<!-- SEEDS-TABLE-BEGIN -->", "<!-- SEEDS-TABLE-END -->"
+i, j = s.index(b), s.index(e)
+s = s[:i] + b + "\n| seed | touches | manifests on | caught by (quick) |\n|---|---|---|---|\n" + "\n".join(rows) + "\n" + s[j:]
 s = re.sub(r"\b\d+ defects fixed, \d+ recorded", "%d defects fixed, %d recorded" % (len(fixed), len(opn)), s)
 s = re.sub(r"driver alone\)\.  \d+ were repaired", "driver alone).  %d were repaired" % len(fixed), s)
 open(V + "/DESIGN.md", "w").write(s)
